@@ -50,7 +50,9 @@ use hashrec::feed_of;
 
 fn view<A: Codec>(s: &SeqSlice<A>) -> Value {
     let syms: Vec<u64> = s.iter().map(|x| x.to_bits() as u64).collect();
-    json!({"len": s.len(), "syms": syms, "disp": s.to_string().into_bytes()})
+    let rebuilt: Seq<A> = s.iter().collect();
+    let canon = *s == rebuilt && rebuilt == *s && feed_of(s) == feed_of(&rebuilt);
+    json!({"len": s.len(), "syms": syms, "disp": s.to_string().into_bytes(), "canon": canon})
 }
 '''
 
